@@ -112,7 +112,7 @@ class Pack(Family):
         ctx.prove("post.n_registers==ceil(n/k)", Q == (n + k - 1) / k)
         ctx.prove("post.shape==(n,)", I(ba._shape[0]) == n)
         q = z3.Int("q")
-        ctx.assume(z3.And(0 <= q, q < Q))
+        ctx.skolem(z3.And(0 <= q, q < Q))
         for j in range(k):
             ctx.add_index(q * k + j)        # the "fits in b bits" precondition is needed at every element of the register
         goals = []
@@ -165,7 +165,7 @@ class Unpack(Family):
         ctx.prove("post.length==n", dim_term(out.shape_[0]) == n)
         q = z3.Int("q")
         p = q * k + i
-        ctx.assume(z3.And(0 <= q, p < n))
+        ctx.skolem(z3.And(0 <= q, p < n))
         ctx.prove("post.out[p]==digit(p mod k) of register p div k", out.get(p) == digit(data.fn(q), i, b))
 
     def concrete(self, case):
@@ -193,7 +193,7 @@ class GetItemInt(Family):
         n, Q, data, ba = sym_packed(ctx, b)
         q = z3.Int("q")
         p = q * k + i
-        ctx.assume(z3.And(0 <= q, p < n))
+        ctx.skolem(z3.And(0 <= q, p < n))
         with _patched_dtype():
             r = ba[SInt(p)]
         ctx.prove("post.result==element p", r.t == digit(data.fn(q), i, b))
@@ -246,7 +246,7 @@ class GetItemList(Family):
         ctx.prove("post.length==len(list)", dim_term(arr.shape_[0]) == m)
         t = z3.Int("t")
         q = z3.Int("q")
-        ctx.assume(z3.And(0 <= t, t < m, idx.fn(t) == q * k + i, q >= 0))
+        ctx.skolem(z3.And(0 <= t, t < m, idx.fn(t) == q * k + i, q >= 0))
         ctx.add_index(t)
         ctx.prove("post.packed-input[t]==element idx[t]", arr.get(t) == digit(data.fn(q), i, b))
         ctx.prove("pre(pack).fits-in-b-bits", z3.ULT(arr.get(t), z3.BitVecVal(2 ** b, 64)))
@@ -285,7 +285,7 @@ class SlidingWindow(Family):
             out = ba.sliding_window(SInt(w))
         q = z3.Int("q")
         p = q * k + i
-        ctx.assume(z3.And(0 <= q, p + w <= n))
+        ctx.skolem(z3.And(0 <= q, p + w <= n))
         ctx.add_index(q, q + 1)
         ctx.prove("post.n_windows>=n-w+1", dim_term(out.shape_[0]) >= n - w + 1)
         word = out.get(p)
